@@ -413,6 +413,10 @@ class Interp(object):
                 return ExtName('%s.%s' % (short, name))
             return self.lookup_global(name, obj.mod)
         if isinstance(obj, ExtName):
+            if name in EXC_PARENT or name in BUILTIN_EXC:
+                return ExcType(name)
+            if name == 'error' and obj.dotted in ('socket', 'struct', 'zlib'):
+                return ExcType({'socket': 'OSError', 'struct': 'StructError', 'zlib': 'ZlibError'}[obj.dotted])
             return ExtName(obj.dotted + '.' + name)
         if isinstance(obj, NodeV):
             if name == 'id' or name == 'address':
@@ -1183,6 +1187,8 @@ class Interp(object):
                 self.raise_('IndexError')
         if isinstance(obj, Ref):
             c = self.ctx.cell(obj)
+            if hasattr(c, 'get_item'):
+                return c.get_item(self, obj, idx)
             if isinstance(c, PList):
                 if is_sym(idx):
                     raise Undecided('symbolic index into concrete-length list')
